@@ -868,6 +868,8 @@ vp('C01 C02 C03 C04 C12 C13 C16 C17', 'silent', 'refactors/R01.diff',
    'strapdown kernel: jitted helpers extracted, n/e/d component names, named threshold, hoisted reads')
 vp('C01 C02 C17', 'silent', 'refactors/R02.diff',
    'mat_from_rotvec: coefficient helper with early return, hoisted reads, reordered stores')
+vp('C07 C08 C11 C12', 'silent', 'refactors/R05.diff',
+   'kalman: Van Loan assembly and Joseph form in helpers, named slices, flag in a local')
 vp('C06 C09 C10 C11 C13', 'silent', 'refactors/R11.diff',
    'measurements: availability / attitude / component-selection helpers, lever arm read once')
 vp('C01 C02 C13 C15', 'silent', 'refactors/R04.diff',
